@@ -40,7 +40,8 @@ macro_rules! shown {
 }
 
 fn conv(out: &mut impl Write, ty: &str, what: &str, dom: u32, f: impl Fn(u32) -> bool) {
-    let bad: Vec<u32> = (0..=dom).filter(|v| !f(*v)).collect();
+    // a panic inside a conversion or a formatter is a failure for that value, not the end of the sweep
+    let bad: Vec<u32> = (0..=dom).filter(|v| !std::panic::catch_unwind(std::panic::AssertUnwindSafe(|| f(*v))).unwrap_or(false)).collect();
     writeln!(out, "{}", json!({"kind":"conv","type":ty,"conv":what,"domain":dom + 1,"failures":bad.len(),"first":bad.first().map(|x| *x as i64).unwrap_or(-1)})).unwrap();
 }
 
@@ -153,7 +154,9 @@ pub fn cmd_registry(args: &[String]) -> i32 {
     conv(&mut out, "SignatureScheme", "hash_alg", 65535, |v| SignatureScheme(v as u16).hash_alg() as u32 == v >> 8);
     conv(&mut out, "SignatureScheme", "sign_alg", 65535, |v| SignatureScheme(v as u16).sign_alg() as u32 == v & 0xff);
     writeln!(out, "{}", json!({"kind":"reserved","rle": rle((0..=65535u32).map(|v| if SignatureScheme(v as u16).is_reserved() {"1".to_string()} else {"0".to_string()}))})).unwrap();
-    let kb: Vec<Value> = (0..=65535u32).filter_map(|v| NamedGroup(v as u16).key_bits().map(|n| json!([v, n]))).collect();
+    // (a panic is reported as the impossible size 0 for that group)
+    let kb: Vec<Value> = (0..=65535u32).filter_map(|v| match std::panic::catch_unwind(|| NamedGroup(v as u16).key_bits()) {
+        Ok(r) => r.map(|n| json!([v, n])), Err(_) => Some(json!([v, 0])) }).collect();
     writeln!(out, "{}", json!({"kind":"keybits","some":kb})).unwrap();
     out.flush().unwrap();
     0
